@@ -91,8 +91,11 @@ static void log_cb(void *state, const char *fmt, va_list ap) {
   else if (starts(line, "Too many L0")) BUMP(waiting_l0);
   else if (starts(line, "Recovering log")) BUMP(recovering);
   else if (starts(line, "Compaction error") || strstr(line, "dropping") || starts(line, "Ignoring error")) {
+    static int err_lock = 0;
     BUMP(errors);
+    while (__atomic_exchange_n(&err_lock, 1, __ATOMIC_ACQUIRE)) {}
     snprintf(li->last_error, sizeof(li->last_error), "%s", line);
+    __atomic_store_n(&err_lock, 0, __ATOMIC_RELEASE);
   }
   if (getenv("VERIF_LOGTRACE")) fprintf(stderr, "[lcdb] %s\n", line);
 }
